@@ -213,6 +213,11 @@ class Context:
                 #       and their related description.
                 failed_processes.update({process for process in status.running_processes()
                                          if process.invalidate_identifier(status.identifier)})
+                # a process STOPPING on the lost Supvisors instance is not 'running' but is still referenced there
+                # it is invalidated too, without being considered as a failure to deal with
+                for process in status.processes.values():
+                    if status.identifier in process.running_identifiers:
+                        process.invalidate_identifier(status.identifier)
         # trigger the corresponding Supvisors events
         self.publish_process_failures(failed_processes)
         #  return the identifiers of all invalidated Supvisors instances and the processes declared in failure
